@@ -1111,6 +1111,38 @@ AWARENESS_DELEGATIONS = [
 ]
 
 
+_IM = "yrs::ids::IdMapInner::"
+IDSET_DELEGATIONS = [
+    ("yrs::id_set::IdSet::contains", r"IdMapInner::contains$", {0: "self.0", 1: "id"}, None),
+    ("yrs::id_set::IdSet::get", r"IdMapInner::get$", {0: "self.0", 1: "client_id"}, None),
+    ("yrs::id_set::IdSet::is_empty", r"IdMapInner::is_empty$", {0: "self.0"}, None),
+    ("yrs::id_set::IdSet::len", r"IdMapInner::len$", {0: "self.0"}, None),
+    ("yrs::id_set::IdSet::merge", r"IdMapInner::merge$", {0: "self.0", 1: "other.0"}, None),
+    ("yrs::id_set::IdSet::merge_with", r"IdMapInner::merge_with$", {0: "self.0", 1: "other.0"}, None),
+    ("yrs::id_set::IdSet::diff", r"IdMapInner::diff$", {0: "self.0", 1: "other.0"}, None),
+    ("yrs::id_set::IdSet::diff_with", r"IdMapInner::diff_with$", {0: "self.0", 1: "other.0"}, None),
+    ("yrs::id_set::IdSet::intersect", r"IdMapInner::intersect$", {0: "self.0", 1: "other.0"}, None),
+    ("yrs::id_set::IdSet::intersect_with", r"IdMapInner::intersect_with$", {0: "self.0", 1: "other.0"}, None),
+    ("yrs::id_set::IdSet::insert", r"IdMapInner::entry$", {0: "self.0", 1: "id.client"}, None),
+    ("yrs::id_set::IdSet::insert", r"IdRanges::insert$", {1: "Range{id.clock, (id.clock + len)}"}, None),
+    (_IM + "contains", r"BTreeMap::get$", {0: "self.0", 1: "id.client"}, None),
+    (_IM + "contains", r"IdRanges::contains_clock$", {1: "id.clock"}, None),
+    (_IM + "get", r"BTreeMap::get$", {0: "self.0", 1: "client_id"}, None),
+    (_IM + "merge", r"IdMapInner::merge_with$", {1: "other"}, None),
+    (_IM + "diff", r"IdMapInner::diff_with$", {1: "other"}, None),
+    (_IM + "intersect", r"IdMapInner::intersect_with$", {1: "other"}, None),
+    (_IM + "insert_range", r"BTreeMap::entry$", {0: "self.0", 1: "client_id"}, None),
+    (_IM + "insert_range", r"IdRanges::insert_with$", {1: "range", 2: "value"}, None),
+    ("yrs::id_map::IdMap::contains", r"IdMapInner::contains$", {0: "self.inner", 1: "id"}, None),
+    ("yrs::id_map::IdMap::is_empty", r"IdMapInner::is_empty$", {0: "self.inner"}, None),
+    ("yrs::id_map::IdMap::intersect_with", r"IdMapInner::intersect_with$", {0: "self.inner", 1: "other.inner"}, None),
+    ("yrs::id_map::IdMap::merge_with", r"IdMapInner::merge_with$", {0: "self.inner", 1: "other.inner"}, None),
+    ("yrs::id_map::IdMap::insert", r"IdMapInner::insert_range$", {0: "self.inner", 1: "range.client", 2: "BlockRange::clock_range(range)", 3: "ContentAttributes{attrs}"}, None),
+    ("yrs::id_map::IdMap::remove", r"IdMapInner::entry$", {0: "self.inner", 1: "range.client"}, None),
+    ("yrs::id_map::IdMap::remove", r"IdRanges::remove$", {1: "BlockRange::clock_range(range)"}, None),
+]
+
+
 def api_delegations(R, ctx, rid, table=None, what=None):
     """R-PROV the public methods of the shared types hand their own arguments on."""
     from .accessors import _canon
